@@ -148,3 +148,11 @@ func IteU64(c bool, a, b uint64) uint64 {
 	}
 	return b
 }
+
+// RetentionDays returns the float32 retention_days setting. Under the engine the float is
+// opaque and (config.Sweeper).RetentionDuration() is replaced by the symbolic non-negative
+// int64 "retention" (the float32 product is not encoded); natively the setting is chosen so
+// that RetentionDuration() is as close to the counterexample's "retention" as float32 allows.
+func RetentionDays() float32 {
+	return float32(float64(int64(val("retention"))) / 86400e9)
+}
